@@ -92,8 +92,10 @@ Example C09_example_duplicate :
              (run2 (init2 {| cf_warn := WNil; cf_handler := false; cf_keyed := true |}) ex_duplicate)
   = Some ([(0%nat, 1%nat, 40, RetVal KObj 8)], RRead, 1%nat, [WAck 5; WAck 1; WReq 0 1 false]).
 Proof. vm_compute. reflexivity. Qed.
+Print Assumptions C09_example_duplicate.
 
 (* Non-vacuity: in [ex_completes] both calls return, each its own payload, the vector one typed. *)
 Example C09_example : exists s, run init ex_labels = Some s /\
   rets s = [(0%nat, 1%nat, 40, RetVal KObj 8); (1%nat, 1%nat, 44, RetVal KVecBare 7)].
 Proof. eexists. split; [vm_compute; reflexivity|reflexivity]. Qed.
+Print Assumptions C09_example.
